@@ -654,6 +654,128 @@ func (p *Program) mustPrecedeInLoop(l *Loop, in ssa.Instruction) bool {
 // ---------------------------------------------------------------------------------------------
 // R2
 
+// c17PerEdge judges a block that is entered over several edges per edge (facts of the edge): the
+// common answer of all ways in, unknown when they differ or one is undecided.
+func c17PerEdge(p *Program, b *ssa.BasicBlock, judge func([]Fact) tri) tri {
+	if len(b.Preds) == 0 {
+		return unknownTri
+	}
+	res := unknownTri
+	for i, pr := range b.Preds {
+		m := judge(p.FactsOnEdge(pr, b))
+		if m == unknownTri {
+			return unknownTri
+		}
+		if i > 0 && m != res {
+			return unknownTri
+		}
+		res = m
+	}
+	return res
+}
+
+// c17ReadOnlyLocal: the value a local variable holds when it is assigned exactly once as a whole and
+// otherwise only read (loads of the variable or of its fields).
+func c17ReadOnlyLocal(a *ssa.Alloc) ssa.Value {
+	var val ssa.Value
+	for _, r := range referrersOf(a) {
+		switch x := r.(type) {
+		case *ssa.Store:
+			if x.Addr != ssa.Value(a) || val != nil {
+				return nil
+			}
+			val = x.Val
+		case *ssa.UnOp:
+			if x.Op != token.MUL {
+				return nil
+			}
+		case *ssa.FieldAddr:
+			for _, rr := range referrersOf(x) {
+				if u, ok := rr.(*ssa.UnOp); !ok || u.Op != token.MUL {
+					if _, dbg := rr.(*ssa.DebugRef); !dbg {
+						return nil
+					}
+				}
+			}
+		case *ssa.DebugRef:
+		default:
+			return nil
+		}
+	}
+	return val
+}
+
+// c17KindFieldwise reads the kind selector's match test when it is written field by field
+// (recv.GroupKind.Group == gvk.Group && recv.GroupKind.Kind == gvk.Kind): two GroupKind values are
+// equal iff all their fields are. yes = every field of the receiver's GroupKind is known equal to the
+// field of the same name of obj's group/kind; no = one of them is known to differ.
+func (p *Program) c17KindFieldwise(f *ssa.Function, obj ssa.Value, fs []Fact) tri {
+	st := c17RecvStruct(f)
+	if st == nil || len(f.Params) == 0 {
+		return unknownTri
+	}
+	var gkField string
+	var gkStruct *types.Struct
+	for i := 0; i < st.NumFields(); i++ {
+		if namedTypeString(st.Field(i).Type()) == c17TypeGK {
+			gkField = st.Field(i).Name()
+			gkStruct, _ = st.Field(i).Type().Underlying().(*types.Struct)
+		}
+	}
+	if gkStruct == nil || gkStruct.NumFields() == 0 {
+		return unknownTri
+	}
+	// field of the receiver's pair / of the object's group-version-kind that v reads
+	recvField := func(v ssa.Value) (string, bool) {
+		root, path := c17FieldPath(v)
+		if root != ssa.Value(f.Params[0]) || len(path) != 2 || path[0] != gkField {
+			return "", false
+		}
+		return path[1], true
+	}
+	objField := func(v ssa.Value) (string, bool) {
+		root, path := c17FieldPath(v)
+		if len(path) != 1 {
+			return "", false
+		}
+		if a, ok := root.(*ssa.Alloc); ok {
+			root = c17ReadOnlyLocal(a)
+			if root == nil {
+				return "", false
+			}
+		}
+		if p.c17CallChain(root, obj, "GetObjectKind", "GroupVersionKind") ||
+			p.c17CallChain(root, obj, "GetObjectKind", "GroupVersionKind", "GroupKind") {
+			return path[0], true
+		}
+		return "", false
+	}
+	equal := map[string]bool{}
+	for _, fc := range fs {
+		a, b, eq, ok := c17EqFact(fc)
+		if !ok {
+			continue
+		}
+		for _, pr := range [][2]ssa.Value{{a, b}, {b, a}} {
+			rf, ok1 := recvField(pr[0])
+			of, ok2 := objField(pr[1])
+			if !ok1 || !ok2 || rf != of {
+				continue
+			}
+			if !eq {
+				return noTri
+			}
+			equal[rf] = true
+		}
+	}
+	for i := 0; i < gkStruct.NumFields(); i++ {
+		if !equal[gkStruct.Field(i).Name()] {
+			return unknownTri
+		}
+	}
+	return yesTri
+}
+
 func c17r2(c *Ctx) {
 	p := c.P
 	n := 0
@@ -672,6 +794,12 @@ func c17r2(c *Ctx) {
 		}
 		// matches(fs): yes = facts say the selector matches obj, no = does not match
 		matches := func(fs []Fact) tri {
+			if kind == "kind-selector" {
+				// the pair compared field by field: equal iff every field is equal
+				if m := p.c17KindFieldwise(f, obj, fs); m != unknownTri {
+					return m
+				}
+			}
 			for _, fc := range fs {
 				if kind == "kind-selector" {
 					a, b, equal, ok := c17EqFact(fc)
@@ -709,6 +837,10 @@ func c17r2(c *Ctx) {
 		nDel, nPass := 0, 0
 		for _, rc := range p.c17ReturnCases(f) {
 			m := matches(rc.Facts)
+			if m == unknownTri && rc.Pred == nil {
+				// a return block shared by several tests (a && b failing at a or at b): per way in
+				m = c17PerEdge(p, rc.Ret.Block(), matches)
+			}
 			switch {
 			case p.c17Delegate(f, rc):
 				nDel++
